@@ -227,6 +227,30 @@ def runOp2 {α} [Num2 α] (secs : List (List String)) : String :=
         let r := (List.range B).map fun i => classifyRow nCls false (fun _ => 0) (ensembleVote ws (resp i))
         s!"NP=0 V={showMat v} R={showNats r}"
     | _, _, _, _ => "bad-op"
+  -- conv <act> valid h w c nf fh fw B probe | params | X | C
+  | [("conv" :: act :: hd), ps, xs, cs] =>
+    match parseAct act, nats hd, nums ps, nums xs, nums cs with
+    | some act, some [valid, h, w, c, nf, fh, fw, B, probe], some p, some x, some cc =>
+      let isValid : Bool := valid == 1
+      let m0 : Conv α := Conv.mk h w c nf fh fw isValid (fun _ => 0) (fun _ => 0) act
+      let m : Conv α := m0.setParams p
+      -- tabulate the parameters (the model reads them through `List.getD`)
+      let fa := ((List.range (m.nf * m.fsize)).map m.filt).toArray
+      let oa := ((List.range m.nf).map m.off).toArray
+      let m : Conv α := { m with filt := fun q => fa.getD q 0, off := fun f => oa.getD f 0 }
+      let X := mat x m.nIn
+      let C := mat cc m.nOut
+      let out := m.evalB Num.tanh X
+      let ea := ((List.range B).map fun i => ((List.range m.nOut).map (out i)).toArray).toArray
+      let outT : Nat → Nat → α := fun i o => (ea.getD i #[]).getD o 0
+      let e := matList B m.nOut outT
+      let gp := m.gradParams B X outT C
+      let gxs := if probe == 1 then showMat (matList B m.nIn (m.gradX outT C)) else "-"
+      if act == .linear || act == .rectifier then
+        s!"NP={m.numberOfParameters} PV={showVec m.params} S={showMat e} E={showMat e} GP={showVec gp} GX={gxs}"
+      else
+        s!"NP={m.numberOfParameters} PV={showVec m.params} TS={showMat e} TE={showMat e} GP={showVec gp} GX={gxs}"
+    | _, _, _, _, _ => "bad-op"
   -- cmac nIn nOut tilings tiles B | lower upper | params | X | C
   | [("cmac" :: hd), lu, ps, xs, cs] =>
     match nats hd, nums lu, nums ps, nums xs, nums cs with
